@@ -45,21 +45,21 @@ Fixpoint take_ranges (n : nat) (a : list Z) : list wrange * list Z :=
 Definition take_rlist (a : list Z) : list wrange * list Z :=
   match a with n :: t => take_ranges (Z.to_nat n) t | [] => ([], []) end.
 
-(* codec table: (core d nbytes byte* )* *)
-Fixpoint take_tab (n : nat) (a : list Z) : list (Z * Z * list Z) * list Z :=
+(* codec table: (core d len nbytes byte* )* *)
+Fixpoint take_tab (n : nat) (a : list Z) : list (Z * Z * Z * list Z) * list Z :=
   match n, a with
-  | S n', c :: d :: nb :: t =>
+  | S n', c :: d :: len :: nb :: t =>
       let '(bs, t1) := take_n (Z.to_nat nb) t in
-      let '(tab, r) := take_tab n' t1 in ((c, d, bs) :: tab, r)
+      let '(tab, r) := take_tab n' t1 in ((c, d, len, bs) :: tab, r)
   | _, _ => ([], a)
   end.
-Fixpoint tab_get (tab : list (Z * Z * list Z)) (core d : Z) : list Z :=
+Fixpoint tab_get (tab : list (Z * Z * Z * list Z)) (core d len : Z) : list Z :=
   match tab with
   | [] => []
-  | (c, d', bs) :: t => if (c =? core) && (d' =? d) then bs else tab_get t core d
+  | (c, d', len', bs) :: t => if (c =? core) && (d' =? d) && (len' =? len) then bs else tab_get t core d len
   end.
 
-(* CMD layout = 4 : ncores N bd do_w away nbias | nb b* | nq (m s)* | noffs o* | ntab (core d nbytes byte* )*
+(* CMD layout = 4 : ncores N bd do_w away nbias | nb b* | nq (m s)* | noffs o* | ntab (core d len nbytes byte* )*
    -> 0 | 1 len db0 db1 nranges (core depth offset scale_bytes weight_offset weight_bytes index)* buffer *)
 Definition run_layout (a : list Z) : list Z :=
   match a with
@@ -69,7 +69,7 @@ Definition run_layout (a : list Z) : list Z :=
       let '(offs, t3) := take_list t2 in
       let '(tab, _) := match t3 with nt :: t4 => take_tab (Z.to_nat nt) t4 | [] => ([], []) end in
       let qs := prepare_scales q (negb (away =? 0)) nbias in
-      match encode_layout (fun c d _ _ => tab_get tab c d) ncores n bd (negb (dow =? 0)) bs qs offs with
+      match encode_layout (fun c d len _ => tab_get tab c d len) ncores n bd (negb (dow =? 0)) bs qs offs with
       | None => [0]
       | Some t =>
           1 :: zlen (t_buffer t) :: fst (t_db t) :: snd (t_db t) :: zlen (t_ranges t) ::
